@@ -130,10 +130,10 @@ var c13Sizes = func() []int {
 }()
 
 type c13Case struct {
-	f     c13File
-	beh   int
-	maxRd int
-	sm    int // 0 plain, 1 3DES, 2 AES
+	f      c13File
+	beh    int
+	maxRd  int
+	sm     int // 0 plain, 1 3DES, 2 AES
 	absent int // 0 present, 1 select answers 6A82, 2 select answers 6283
 }
 
